@@ -1,0 +1,46 @@
+//go:build verif
+
+package router
+
+// Add-only hook for the C19 "client groups" check: place an answer into the RUNNING router's memory
+// cache on behalf of a client address, with caller-chosen stored/expire instants. The client group is
+// looked up by the router's own ip marker (cacheCtl.ipMark), the key is built by cacheKey, the value by
+// packCacheMsg, the store is MemoryCache.Store — what cacheCtl.Store does, with the instants chosen.
+
+import (
+	"errors"
+	"net/netip"
+	"time"
+
+	"github.com/IrineSistiana/mosproxy/internal/dnsmsg"
+	"github.com/IrineSistiana/mosproxy/internal/pool"
+)
+
+// VerifC19StoreAtFor stores the wire message respWire (a response with exactly one question) under its
+// question and the group of client (the zero Addr = a client without a valid address), stored at
+// now+storedOff and expiring at now+expireOff. It returns the group label.
+func (v *VerifRouter) VerifC19StoreAtFor(respWire []byte, client netip.Addr, storedOff, expireOff time.Duration) (string, error) {
+	c := v.r.cache
+	if c == nil || c.memory == nil {
+		return "", errors.New("verif: router has no memory cache")
+	}
+	m, err := dnsmsg.UnpackMsg(respWire)
+	if err != nil {
+		return "", err
+	}
+	defer dnsmsg.ReleaseMsg(m)
+	if len(m.Questions) != 1 {
+		return "", errors.New("verif: response must carry one question")
+	}
+	b, err := packCacheMsg(m)
+	if err != nil {
+		return "", err
+	}
+	defer pool.ReleaseBuf(b)
+	mark := c.ipMark(client)
+	k := cacheKey(m.Questions[0], mark)
+	defer pool.ReleaseBuf(k)
+	now := time.Now()
+	c.memory.Store(k, now.Add(storedOff), now.Add(expireOff), b, false)
+	return mark, nil
+}
